@@ -15,3 +15,8 @@ from harness.mm_run import (  # noqa: F401
     Loaded, Result, SDK, TARGETS, generate, load, load_python_sdk, missing_snippet_keys, new_scratch,
     redirected_tempdir, scratch_root, smoke, snippets_for,
 )
+from harness.mm_gen import *  # noqa: F401,F403
+from harness.mm_gen import (  # noqa: F401
+    Features, Hierarchy, RULES, dag_shapes, enumerate_hierarchies, hierarchy_to_mm, is_safe_name, legal_orders,
+    mutants, random_mm, reserved_names, safe_pattern, sample_match,
+)
